@@ -1,13 +1,45 @@
 from xdsl.context import Context
-from xdsl.dialects import builtin, scf
+from xdsl.dialects import builtin, memref, scf
+from xdsl.dialects.builtin import MemRefType
 from xdsl.dialects.memref import DeallocOp
-from xdsl.ir import Operation
+from xdsl.ir import Operation, OpResult, SSAValue
 from xdsl.passes import ModulePass
 from xdsl.rewriter import InsertPoint, Rewriter
 
 from snaxc.accelerators.acc_context import AccContext
 from snaxc.dialects import snax
 from snaxc.util.dispatching_rules import dispatch_to_compute, dispatch_to_dm
+
+
+# operations that create a new view of (part of) the buffer given as their first operand
+VIEW_OPS = (memref.SubviewOp, memref.CastOp, memref.MemorySpaceCastOp, snax.LayoutCast)
+
+
+def aliases_of(vals: list[SSAValue]) -> list[SSAValue]:
+    """
+    Returns the given values, extended with all values that are a view of the same buffer
+    as one of the given values, such that dependencies through subviews and casts are found.
+    """
+    result: list[SSAValue] = []
+    for val in vals:
+        if not isinstance(val.type, MemRefType):
+            if val not in result:
+                result.append(val)
+            continue
+        # find the buffer this value is a view of
+        while isinstance(val, OpResult) and isinstance(val.op, VIEW_OPS):
+            val = val.op.operands[0]
+        # collect all views of that buffer
+        worklist = [val]
+        while worklist:
+            val = worklist.pop()
+            if val in result:
+                continue
+            result.append(val)
+            for use in val.uses:
+                if isinstance(use.operation, VIEW_OPS) and use.index == 0:
+                    worklist.extend(use.operation.results)
+    return result
 
 
 class InsertSyncBarrier(ModulePass):
@@ -22,7 +54,23 @@ class InsertSyncBarrier(ModulePass):
         assert isinstance(ctx, AccContext)
         rewriter = Rewriter()
 
-        ops_to_sync = []
+        ops_to_sync: list[Operation] = []
+
+        def synced_by(sync_op: Operation, ops: list[Operation]) -> list[Operation]:
+            """
+            Return the ops that still need a barrier after `sync_op`: a barrier only
+            synchronises the operations in its own block (and nested in it), as the
+            block may be a loop body or branch that is not executed at all.
+            """
+            sync_block = sync_op.parent_block()
+            remaining: list[Operation] = []
+            for op_to_sync in ops:
+                parent: Operation | None = op_to_sync
+                while parent is not None and parent.parent_block() is not sync_block:
+                    parent = parent.parent_op()
+                if parent is None:
+                    remaining.append(op_to_sync)
+            return remaining
 
         ## walk the entire module in order
         for op_in_module in op.walk():
@@ -33,16 +81,22 @@ class InsertSyncBarrier(ModulePass):
                 rewriter.insert_op(sync_op, InsertPoint.before(op_in_module))
 
                 # clear the list
-                ops_to_sync = []
+                ops_to_sync = synced_by(sync_op, ops_to_sync)
 
             if isinstance(op_in_module, snax.ClusterSyncOp):
                 # synchronisation ok, clear list
-                ops_to_sync: list[Operation] = []
+                ops_to_sync = synced_by(op_in_module, ops_to_sync)
 
-            # check all operands of current op
-            for operand in [*op_in_module.operands, *op_in_module.results]:
+            # view-like ops don't access the memory themselves
+            if isinstance(op_in_module, VIEW_OPS):
+                continue
+
+            # check all operands of current op, and all other views of the same buffer
+            for operand in aliases_of([*op_in_module.operands, *op_in_module.results]):
                 # check all ops that use the operand -> dependency with current op
                 for op_use in operand.uses:
+                    if isinstance(op_use.operation, VIEW_OPS):
+                        continue
                     # now check if op is dispatched to a specific core and the result
                     # is used on another core - if yes, there must be a synchronisation
                     # barrier between the two ops
